@@ -409,6 +409,10 @@ pub fn c16_scenarios(thorough: bool) -> Vec<C16Scn> {
         C16Scn { name: "blocked-probe-vs-stale".into(), thr: 1, minreq: 0,
                  setup: vec![Build(1), Build(2), Exit(2, true), Advance(1001), LoadIso(1)],
                  threads: vec![vec![Build(3), Exit(3, false)], vec![Exit(1, false)]], onebucket: false },
+        // a failing probe racing with a successful stale completion, and a request right behind it
+        C16Scn { name: "failed-probe-vs-stale-then-request".into(), thr: 1, minreq: 0,
+                 setup: vec![Build(1), Build(2), Exit(2, true), Advance(1001)],
+                 threads: vec![vec![Build(3), Exit(3, true)], vec![Exit(1, false), Build(4), Exit(4, false)]], onebucket: false },
         // a probe completion racing with a stale completion and a new request
         C16Scn { name: "probe-vs-stale".into(), thr: 1, minreq: 0,
                  setup: vec![Build(1), Build(2), Exit(2, true), Advance(1001)],
